@@ -5,6 +5,7 @@ import (
 	goerrors "errors"
 	"fmt"
 	"os"
+	"strings"
 
 	"github.com/cockroachdb/errors"
 	"github.com/cockroachdb/errors/errorspb"
@@ -253,6 +254,27 @@ func (e *UMultiReg) Error() string {
 	return s
 }
 func (e *UMultiReg) Unwrap() []error { return e.Errs }
+
+// UMultiDecl is a registered multi-cause error whose decoder declines
+// (returns nil) messages it does not understand -- version skew: the
+// receiver then keeps an opaque error, branches included.
+type UMultiDecl struct {
+	Msg  string
+	Errs []error
+}
+
+func (e *UMultiDecl) Error() string   { return e.Msg }
+func (e *UMultiDecl) Unwrap() []error { return e.Errs }
+
+func init() {
+	errors.RegisterMultiCauseDecoder(errors.GetTypeKey((*UMultiDecl)(nil)),
+		func(_ context.Context, causes []error, msg string, _ []string, _ proto.Message) error {
+			if strings.HasPrefix(msg, "v2 ") {
+				return nil
+			}
+			return &UMultiDecl{Msg: msg, Errs: causes}
+		})
+}
 
 func init() {
 	errors.RegisterLeafEncoder(errors.GetTypeKey((*ULeafReg)(nil)),
